@@ -9,7 +9,7 @@ NOTES = 'Exit codes of ./check: 0 all obligations discharged; 1 VIOLATION (defin
 
 PENDING = 'check not built yet in this session (planned in DESIGN.md section 5)'
 NOT_APPLICABLE = {
-    'C03': PENDING, 'C06': PENDING, 
+    'C06': PENDING, 
     'C14': PENDING, 'C15': PENDING, 'C16': PENDING, 'C18': PENDING,
     'C11': 'numerical accuracy of a 1000-bin f32 convolution against an exact enumeration over K^M words: floats are uninterpreted in Verus and the convolution is out of reach of CBMC; no contract within reach expresses or decides it (DESIGN.md 5/C11)',
     'C12': 'HashMap<i64,f64> dynamic programming bounded by exact tail probabilities of the true score distribution: a protocol-level real-number argument (TFM-PVALUE paper), not expressible over the real code with Verus (opaque floats, no HashMap iteration specs) or Kani (unbounded loops over float maps) (DESIGN.md 5/C12)',
@@ -18,6 +18,12 @@ NOT_APPLICABLE = {
 }
 
 CHECKS = {
+    'C03': {
+        'text': 'Unbounded deductive proof (Verus) of Scanner::max on its verbatim body (initial best among buffered hits, block loop, candidate loop with the running best and its 8-bit pruning bound): returns None exactly when no un-consumed position scores >= threshold; otherwise a pending position, with its exact score, that is >= the score of every pending position. The invariant ties the pruning bound to the byte image of a value the best score dominates; the two places where the original code broke that (first candidate not compared with the threshold; bound set to the rounded-up byte score) were found as failing obligations, reproduced natively and fixed. Holds for all block sizes and all prefixes of next() calls because it is stated over the abstract pending set.',
+        'design_ref': 'DESIGN.md section 5, C03; section 8 (defects D1, D2, D9, D10 fixed)',
+        'note': 'Trusted: Verus/Z3; float order hypotheses (A-F2) and the general C08 pre-filter hypothesis (A-F4) are assumptions of the contract (cfg.ord_ok); iterator-chain wrapper buffered_best (A-ITER1); contracts of the dispatched u8 pipeline (A-DISP); extraction rules R4v, R6, W2, S2.',
+        'technique': 'contract-based deductive verification (Verus, real body extracted per run) with an abstract pending-set invariant',
+    },
     'C02': {
         'text': 'Unbounded deductive proof (Verus) of Scanner::next on its verbatim body (while loop over blocks + loop over candidate cells): from any state satisfying the representation invariant, a call returns Some(h) where h was pending, is a position in [0, L-M] scoring >= threshold, carries its exact left-to-right f32 score, and is the one element removed from the pending set; or None when the pending set is empty. By induction over calls (histories quantifier) exhaustion yields exactly the hit set, each once, for all sequences, matrices, thresholds, block sizes >= 1 and call interleavings, with no panic (all unwrap/index/overflow obligations discharged for L < M, L = 0, blocks at the wrap-row boundary). Completeness rests on the assumed 8-bit pre-filter property (C08 float half). Natively cross-checked by the replay crate (thorough tier).',
         'design_ref': 'DESIGN.md section 5, C02; section 8 (defects D1, D2 fixed)',
